@@ -507,6 +507,13 @@ def run_search(mon, case, lm, init, batch, conds, label, warm=None):
     # the search object (and the model inside it) after a deepcopy journey; the harness keeps talking to the copy's model
     search = LY.travelled(search, case["width"], case["V"], 0 if batch is None else batch, pickle_ok=False)
     lm = search.lm
+    if (case["width"] + 3 * case["V"]) % 5 == 2:
+        # restored from the checkpoint of a search over the same model built with OTHER settings: a checkpoint
+        # carries the model's parameters, the search's own settings are the constructor's
+        other = BeamSearch(lm, case["width"] + 1, None if case["eos"] is not None else 0, not case["finish_all"],
+                           case["pad_value"] + 1)
+        search.load_state_dict(other.state_dict())
+        LY.TRAVEL_SEEN["state_dict(other settings)"] = LY.TRAVEL_SEEN.get("state_dict(other settings)", 0) + 1
     if warm is not None:
         _REC["on"] = False
         if hasattr(lm, "begin"):
